@@ -312,13 +312,23 @@ func appProxyCases(c *drv.Ctx) {
 	os.Setenv("DOCKER_HOST", "tcp://"+by.String())
 	os.Unsetenv("DOCKER_TLS_VERIFY")
 	os.Unsetenv("DOCKER_CERT_PATH")
-	for pass := 0; pass < 2; pass++ {
+	// pass 0: everything set. pass 2 (run second: net/http reads the proxy variables at the first request
+	// that asks for them and never again): HTTP_PROXY / HTTPS_PROXY only, as on most workstations behind a
+	// corporate proxy - moby's dialer refuses an http:// ALL_PROXY outright, which ends the docker probe of
+	// pass 0 before anything is sent, so that pass says nothing about the docker scan and these variables.
+	// pass 1: only DOCKER_HOST is set.
+	for _, pass := range []int{0, 2, 1} {
+		if pass == 2 {
+			for _, v := range []string{"ALL_PROXY", "all_proxy"} {
+				os.Unsetenv(v)
+			}
+			os.Unsetenv("DOCKER_HOST")
+		}
 		if pass == 1 {
-			// second pass: only DOCKER_HOST is set (moby's dialer refuses an http:// ALL_PROXY outright, which
-			// ends the docker probe before anything is sent)
 			for _, v := range []string{"HTTP_PROXY", "http_proxy", "HTTPS_PROXY", "https_proxy", "ALL_PROXY", "all_proxy"} {
 				os.Unsetenv(v)
 			}
+			os.Setenv("DOCKER_HOST", "tcp://"+by.String())
 		}
 		for _, which := range []string{"elastic", "docker"} {
 			for _, proto := range []string{"http", "https"} {
@@ -357,7 +367,7 @@ func appProxyCases(c *drv.Ctx) {
 				}
 				c.Eval(1)
 				c.Nontrivial(1)
-				name := fmt.Sprintf("%s --proto %s 198.51.100.7:9200 with HTTP(S)_PROXY, ALL_PROXY and DOCKER_HOST pointing at %s", which, proto, by)
+				name := fmt.Sprintf("%s --proto %s 198.51.100.7:9200 with %s pointing at %s", which, proto, []string{"HTTP(S)_PROXY, ALL_PROXY and DOCKER_HOST", "DOCKER_HOST", "HTTP_PROXY and HTTPS_PROXY"}[pass], by)
 				if err != nil || engine == nil {
 					c.Fail("appcli:proxy:refused:"+which+":"+proto, name+": command line refused: "+fmt.Sprint(err), nil)
 					cancel()
